@@ -400,6 +400,47 @@ CONSUMING = ('read', 'read_slice', 'read_array', 'skip', 'skip_byte', 'array_ite
              'bool', 'char', 'f16', 'f32', 'f64', 'unsigned', 'next_element_seed', 'next_key_seed', 'next_value_seed', 'deserialize', 'pair')
 
 
+_may_consume = {}
+
+
+def may_consume(prog):
+    """workspace functions that can advance the decoder: reverse reachability, over resolved calls, from the position-advancing input
+    primitives (read, read_slice, set_position and the serde twin) - whatever the functions in between are called"""
+    if id(prog) in _may_consume:
+        return _may_consume[id(prog)]
+    base = {DEC + 'read', DEC + 'read_slice', DEC + 'set_position', 'minicbor_serde::de::Deserializer::<\'de>::read'}
+    callers = {}
+    for inst in prog.insts.values():
+        for bi, t in mir.iter_calls(inst['body']):
+            f = t.get('f') or {}
+            cp = f.get('rpath') or f.get('path')
+            if cp:
+                callers.setdefault(cp, set()).add(inst['path'])
+        # closures run on behalf of the function that creates them
+        if '::{closure' in inst['path']:
+            callers.setdefault(inst['path'], set()).add(inst['path'].split('::{closure')[0])
+    seen = set(base)
+    work = list(base)
+    while work:
+        x = work.pop()
+        for c in callers.get(x, ()):
+            if c not in seen:
+                seen.add(c)
+                work.append(c)
+    _may_consume[id(prog)] = seen
+    return seen
+
+
+def is_consuming_call(prog, t):
+    f = t.get('f') or {}
+    cp = f.get('rpath') or f.get('path') or ''
+    if cp in may_consume(prog):
+        return True
+    # calls the exporter could not resolve (trait methods on type parameters) and external adaptors: by name
+    last = cp.split('::')[-1].split('<')[0]
+    return (not f.get('resolved') or f.get('krate') not in ('minicbor', 'minicbor_serde')) and last in CONSUMING
+
+
 def f_loop(ctx, prog, reach):
     table = jtable('loops.json')
     used = {}
@@ -414,7 +455,7 @@ def f_loop(ctx, prog, reach):
                 t = inst['body']['blocks'][bi]['t']
                 if t['k'] == 'call':
                     calls.append(((mir.callee_path(t) or '').split('::')[-1].split('<')[0], t))
-            consuming = [c for c, t in calls if c in CONSUMING]
+            consuming = [c for c, t in calls if is_consuming_call(prog, t)]
             key = inst['path']
             if consuming:
                 ctx.ok('F-LOOP', '%s|%s' % (key, ','.join(sorted(set(consuming)))))
@@ -441,7 +482,7 @@ def f_minconsume(ctx, prog):
         n += 1
         body = inst['body']
         cfg = mir.CFG(body)
-        cons = [bi for bi, t in mir.iter_calls(body) if (mir.callee_path(t) or '').split('::')[-1].split('<')[0] in CONSUMING or 'decode' in (mir.callee_path(t) or '').split('::')[-1]]
+        cons = [bi for bi, t in mir.iter_calls(body) if is_consuming_call(prog, t) or 'decode' in (mir.callee_path(t) or '').split('::')[-1]]
         errs = []
         for bi, b in enumerate(body['blocks']):
             t = b['t']
